@@ -126,7 +126,8 @@ def compare(name, obj, model, site, feats, out):
 
 MUTATORS = {"append", "extend", "insert", "pop", "del", "set", "reverse", "clear"}
 NEGATIVE = {"append_other", "append_multi", "insert_other", "insert_multi", "set_other", "set_multi",
-            "extend_other", "append_array", "ctor_list_other", "ctor_list_other_first"}
+            "extend_other", "append_array", "ctor_list_other", "ctor_list_other_first",
+            "append_empty", "insert_empty", "set_empty", "ctor_list_multi", "ctor_list_empty_elem"}
 
 
 LOOSE_RUN = [False]
@@ -321,6 +322,16 @@ def check_case(case):
                 f = lambda: obj.__setitem__(_inrange(op[1], len(model)), make(name, [elem(name, 7), elem(name, 8)]))
             elif o == "extend_other":
                 f = lambda: obj.extend(make(other, [elem(other, 7), elem(other, 8)]))
+            elif o == "append_empty":           # a zero-valued object where a single value is required
+                f = lambda: obj.append(cls.Empty())
+            elif o == "insert_empty":
+                f = lambda: obj.insert(op[1], cls.Empty())
+            elif o == "set_empty":
+                f = lambda: obj.__setitem__(_inrange(op[1], len(model)), cls.Empty())
+            elif o == "ctor_list_multi":        # the list form takes single-valued objects only
+                f = lambda: cls([make(name, [elem(name, 7)]), make(name, [elem(name, 8), elem(name, 9)])])
+            elif o == "ctor_list_empty_elem":
+                f = lambda: cls([make(name, [elem(name, 7)]), cls.Empty()])
             elif o == "ctor_list_other":
                 f = lambda: cls([make(name, [elem(name, 7)]), make(other, [elem(other, 8)])])
             elif o == "ctor_list_other_first":
@@ -440,8 +451,9 @@ def op_strategy():
         st.just(["clear"]),
         st.just(["ctor_list"]),
         st.just(["copy"]),
-        st.tuples(st.sampled_from(["append_other", "append_multi", "extend_other", "append_array", "ctor_list_other", "ctor_list_other_first"])).map(list),
-        st.tuples(st.sampled_from(["insert_other", "insert_multi", "set_other", "set_multi"]), IDX).map(list),
+        st.tuples(st.sampled_from(["append_other", "append_multi", "extend_other", "append_array", "ctor_list_other", "ctor_list_other_first",
+                                   "append_empty", "ctor_list_multi", "ctor_list_empty_elem"])).map(list),
+        st.tuples(st.sampled_from(["insert_other", "insert_multi", "set_other", "set_multi", "insert_empty", "set_empty"]), IDX).map(list),
     )
 
 
@@ -459,9 +471,9 @@ def machine_spec():
         "set": st.tuples(st.just("set"), IDX).map(list),
         "reverse": st.just(["reverse"]), "clear": st.just(["clear"]), "ctor_list": st.just(["ctor_list"]), "copy": st.just(["copy"]),
     }
-    for nm in ("append_other", "append_multi", "extend_other", "append_array", "ctor_list_other", "ctor_list_other_first"):
+    for nm in ("append_other", "append_multi", "extend_other", "append_array", "ctor_list_other", "ctor_list_other_first", "append_empty", "ctor_list_multi", "ctor_list_empty_elem"):
         rules[nm] = st.just([nm])
-    for nm in ("insert_other", "insert_multi", "set_other", "set_multi"):
+    for nm in ("insert_other", "insert_multi", "set_other", "set_multi", "insert_empty", "set_empty"):
         rules[nm] = st.tuples(st.just(nm), IDX).map(list)
     init = st.fixed_dictionaries({"kind": st.just("ops"), "cls": st.sampled_from(CLASSES), "start": start_strategy()})
     return {"init": init, "key": "ops", "rules": rules}
@@ -508,7 +520,7 @@ def gen_indices(tier):
 ALPHABET = [["get", -1], ["get", 0], ["slice", 1, None, None], ["slice", None, -1, None], ["slice", None, None, -1],
             ["append"], ["extend", 2], ["extend", 1], ["insert", 0], ["insert", -1], ["pop", None], ["pop", 0],
             ["del", 0], ["del", -1], ["set", 0], ["set", -1], ["reverse"], ["clear"], ["ctor_list"],
-            ["append_other"], ["append_multi"], ["copy"], ["ctor_list_other"]]
+            ["append_other"], ["append_multi"], ["copy"], ["ctor_list_other"], ["append_empty"], ["insert_empty", 0], ["set_empty", 0], ["ctor_list_multi"], ["ctor_list_empty_elem"]]
 
 
 def gen_sequences(tier):
